@@ -18,19 +18,19 @@ CHECKS = {
    text="The multiset of executed (call, fork, phase, chunk) must equal the reference model's set: one recorded fork per expected invocation, each job started once, chunk jobs == chunks the split defined, nothing for disabled calls; boundary collection sizes (0,1,9,10,11).",
    ref="3 C03"),
  "C04": dict(level="exploration", tech="runtime monitoring: consumer-side file liveness checks under all VDR modes with delays at VDR hook points",
-   text="File-passing programs under rolling/post/strict VDR: every consumer probe stats and reads every path named in its own arguments when it starts (content tokens identify the producer's file); at completion every top-level file output and retained file must carry the producer's token. Sampled programs/schedules.",
+   text="File-passing programs under rolling/post/strict VDR: every consumer probe stats and reads every path named in its own arguments when it starts (content tokens identify the producer's file); at completion every top-level file output and retained file must carry the producer's token. Sampled programs/schedules. A sixth of the cases reach the pipestance through a symlinked parent directory with half of the files named by physical path; a third carry the paths of written files in string-typed outputs.",
    ref="3 C04"),
- "C05": dict(level="fault_enumeration", tech="fault injection: crash (SIGKILL/SIGTERM/SIGINT) at enumerated hook points and job-side points, restart, compare with uninterrupted baseline",
+ "C05": dict(level="fault_enumeration", tech="fault injection: crash (SIGKILL and the handled signals TERM/INT/HUP/USR1/USR2) at enumerated hook points and job-side points, restart, compare with uninterrupted baseline",
    text="The baseline run of each program yields the ordered list of mrp hook hits between filesystem effects; crash specs (point, occurrence, signal) are enumerated (all points for small programs in the thorough tier, stratified by point class otherwise), plus job-side kills of mrp and double crashes. After restart(s): exit 0, outputs and outs/ tokens equal the baseline, no job with a completion marker older than the interruption starts again, no _lock after a handled signal. The job monitor (mrjob) also signals mrp from its own hook points just before / just after it records a job's completion, so that the monitor itself is signalled by mrp's death inside that window. Every hook hit of the post-processing window is a crash point; every fourth program runs with --zip (crash points inside the metadata archiving); directed interruptions when the first fork of a run-time map call has ended; half of the programs take negative float / large integer invocation arguments.",
    ref="3 C05"),
  "C06": dict(level="fault_enumeration", tech="fault injection: every job x failure manifestation via the probe's behaviour file, then fault removal and restart",
-   text="Every job of a program as failure site x manifestation (error pipe, ASSERT, exit codes, SIGSEGV/SIGKILL of stage or mrjob, truncated/missing/ill-typed outs, bad _stage_defs), one-shot or repeated, autoretry 0|2: mrp must fail without claiming success, name the stage, start no dependent job, and after fault removal complete with the baseline result without redoing completed work. Preflight calls get directed faults (everything else in the pipeline, nested at any depth, depends on them); a fraction of the stages run through the real Python adapter with Python-only failure modes. With --autoretry=N the failing job runs at most N+1 times, also when the fault looks transient on every attempt; directed bad outputs of non-last chunks.",
+   text="Every job of a program as failure site x manifestation (error pipe, ASSERT, exit codes, SIGSEGV/SIGKILL of stage or mrjob, truncated/missing/ill-typed outs, bad _stage_defs), one-shot or repeated, autoretry 0|2: mrp must fail without claiming success, name the stage, start no dependent job, and after fault removal complete with the baseline result without redoing completed work. Preflight calls get directed faults (everything else in the pipeline, nested at any depth, depends on them); a fraction of the stages run through the real Python adapter with Python-only failure modes. With --autoretry=N the failing job runs at most N+1 times, also when the fault looks transient on every attempt; directed bad outputs of non-last chunks; ill-typed resource requests in a split's chunk definitions; every fourth program runs 60% of its stages as bare executables (exec), with in-contract faults only.",
    ref="3 C06"),
  "C13": dict(level="exploration", tech="runtime monitoring: end-state checker of outs/ and the post-processed _outs against a pre-post-processing snapshot",
    text="Top-level signatures of every container nesting with nulls, never-written files, explicit out names and duplicate references: the outs/ path of every file leaf is re-derived from name/type/outname and must carry the producer's content token; the post-processed _outs must be valid JSON of the same shape with non-file values unchanged. Explicit out names that clash with a sibling's default file name must be rejected before anything runs or else be materialised faithfully. A sixth of the cases run with --zip (the record is read back from the metadata archive); run-time map keys with control characters, quotes and backslashes.",
    ref="3 C13"),
  "C14": dict(level="exploration", tech="runtime monitoring: removal inventories taken by a hook just before each os.RemoveAll, compared with kill reports and the final tree",
-   text="With VDR on: no executed job's tmp directory, no chunk-level file of a splitting stage and no unretained file of a volatile stage survives; listed paths are gone; per-fork and pipestance report count/size equal the sum of the hook's own lstat inventories; every vanished file is covered by a removal inside the pipestance; a canary beside it is untouched. Every tenth case: interrupted run, top-level pipeline directory moved outside and replaced by a symlink, restart - the files of completed jobs lying there must survive.",
+   text="With VDR on: no executed job's tmp directory, no chunk-level file of a splitting stage and no unretained file of a volatile stage survives; listed paths are gone; per-fork and pipestance report count/size equal the sum of the hook's own lstat inventories; every vanished file is covered by a removal inside the pipestance; a canary beside it is untouched. Every tenth case: interrupted run, top-level pipeline directory moved outside and replaced by a symlink, restart - the files of completed jobs lying there must survive. Every tenth case runs with --overrides (force_volatile on the top-level pipeline, resource-only entries on half of the stage calls): every stage call then counts as volatile.",
    ref="3 C14"),
 }
 
